@@ -105,6 +105,7 @@ struct Prog
 	std::uint64_t keyseq = 1;
 	bool idle_hook = true;
 	std::int64_t t_base = 0; // virtual time at which the program's traffic starts
+	bool late_capture = false, capture_on = false; std::size_t capture_from_event = 0; // probe events before this index precede the capture
 
 	Prog(Args const& a_, std::uint64_t seed, std::string path) : a(a_), rng(seed), pcap_path(std::move(path)) {}
 
@@ -129,7 +130,10 @@ struct Prog
 		NameEntry ne; ne.lat_ns = 7000000; ne.addrs = {addrs[1]}; net.names["peer.test"] = ne;
 		sim.reset(new sim::simulation(net));
 		M().last_clock = 0;
-		API(sim->log_pcap(pcap_path.c_str()));
+		// one program in five switches the capture on in mid-run: sequence numbers then start at the number of
+		// payload bytes each direction has transmitted before
+		late_capture = rng.coin(1, 5);
+		if (!late_capture) { API(sim->log_pcap(pcap_path.c_str())); capture_on = true; }
 		for (auto const& ad : addrs) ios.emplace_back(new asio::io_context(*sim, ad));
 		runner.reset(new Runner(*sim));
 		if (!idle_hook) sim->verif_step_hook = nullptr;
@@ -137,6 +141,12 @@ struct Prog
 		if (rng.coin(1, 3))
 			t_base = rng.pick(std::vector<std::int64_t>{4294000000000ll, 4294967000000ll, 5000000000000ll, 86400000000000ll, 2147483000000000ll, 100000000000ll});
 		desc = fmt("%d nodes%s start@%" PRId64 "s", nn, lossy ? " lossy" : "", t_base / 1000000000);
+		if (late_capture)
+		{
+			std::int64_t const t_cap = rng.pick(std::vector<std::int64_t>{1000000, 7000000, 20000000, 45000000, 120000000});
+			after(t_cap, [this]() { API(sim->log_pcap(pcap_path.c_str())); capture_on = true; capture_from_event = log.ev.size(); tr("capture enabled"); });
+			desc += fmt(" capture enabled %" PRId64 " ms into the traffic", t_cap / 1000000);
+		}
 
 		// TCP connections
 		int const nc = 1 + rng.choose(3);
@@ -391,20 +401,35 @@ void check_capture(Prog& p)
 {
 	Report& r = R();
 	std::vector<Rec> recs; std::string err;
+	if (!p.capture_on) { r.count("programs_that_ended_before_the_capture_was_enabled"); return; }
 	if (!read_pcap(p.pcap_path, recs, err)) { r.violation("C19", "malformed-file", err); return; }
+	if (p.late_capture) r.count("programs_with_capture_enabled_in_mid_run");
 	r.count("pcap_records", recs.size());
 	// what the on-wire probes saw, in order: UDP datagrams and TCP payload / closing segments
 	std::set<int> wire;
 	for (auto const& w : p.net.wire_probe) wire.insert(w.second);
-	struct Sent { Ev const* e; bool udp; };
+	struct Sent { Ev const* e; bool udp; std::uint32_t want_seq; };
 	std::vector<Sent> sent; std::uint64_t closing = 0;
 	std::map<std::uint64_t, bool> from_is_udp;
 	for (auto const& u : p.udps) from_is_udp[ep_hash(u->ep)] = true;
-	for (auto const& e : p.log.ev)
+	// payload bytes transmitted so far per direction of each connection (channel + sender port: a NAT rewrites the
+	// address of re-sent segments but never the port), counted from the connection's first segment whether or not
+	// the capture was already on
+	std::map<std::pair<void const*, std::uint16_t>, std::uint32_t> dir_bytes;
+	for (std::size_t i = 0; i < p.log.ev.size(); ++i)
 	{
+		Ev const& e = p.log.ev[i];
 		if (e.kind != EV_PASS || !wire.count(e.probe)) continue;
-		if (e.type == int(packet::type_t::payload)) sent.push_back(Sent{&e, from_is_udp.count(e.from) != 0});
-		else if (e.type == int(packet::type_t::error)) ++closing;
+		bool const udp = from_is_udp.count(e.from) != 0;
+		bool const captured = i >= p.capture_from_event;
+		if (e.type == int(packet::type_t::payload))
+		{
+			std::uint32_t want = 0;
+			if (!udp) { std::uint32_t& b = dir_bytes[std::make_pair(e.channel, e.from_port)]; want = b; b += std::uint32_t(e.size); }
+			if (captured) sent.push_back(Sent{&e, udp, want});
+			else r.count("transmissions_before_capture_was_enabled");
+		}
+		else if (e.type == int(packet::type_t::error) && captured) ++closing;
 	}
 	// (connector endpoint, acceptor endpoint) of every TCP connection of the program
 	std::vector<std::pair<ip::tcp::endpoint, ip::tcp::endpoint>> pairs;
@@ -414,7 +439,7 @@ void check_capture(Prog& p)
 	std::uint32_t const epoch = 441794304u;
 	std::uint64_t prev_ts = 0; std::size_t si = 0; std::uint64_t zero_tcp = 0;
 	std::map<std::pair<std::pair<std::uint32_t, std::uint16_t>, std::pair<std::uint32_t, std::uint16_t>>, std::uint32_t> flow_bytes;
-	std::map<std::pair<std::pair<std::uint32_t, std::uint16_t>, std::pair<std::uint32_t, std::uint16_t>>, bool> flow_seen;
+	std::map<std::pair<std::pair<std::uint32_t, std::uint16_t>, std::pair<std::uint32_t, std::uint16_t>>, bool> flow_seen, flow_started;
 	for (std::size_t i = 0; i < recs.size(); ++i)
 	{
 		Rec const& c = recs[i];
@@ -437,15 +462,26 @@ void check_capture(Prog& p)
 		{
 			auto key = std::make_pair(std::make_pair(c.src, c.sport), std::make_pair(c.dst, c.dport));
 			if (!flow_seen[key]) { flow_seen[key] = true; flow_bytes[key] = 0; r.count("tcp_flows"); }
-			if (c.seq != flow_bytes[key])
-				r.violation("C19", flow_bytes[key] == 0 ? "tcp-seq-does-not-start-at-zero" : "tcp-seq-not-cumulative"
-					, who + fmt(": sequence number %u, but %u payload bytes were transmitted before in this direction", c.seq, flow_bytes[key]));
-			flow_bytes[key] = c.seq + std::uint32_t(c.payload.size()); // follow the file so that one bad start is one violation
-			if (c.payload.empty()) { ++zero_tcp; continue; }
+			if (c.payload.empty())
+			{
+				// closing segment: it continues the numbering of the records of its direction seen in the file
+				if (flow_bytes.count(key) && flow_started[key] && c.seq != flow_bytes[key])
+					r.violation("C19", "tcp-seq-not-cumulative", who + fmt(": closing segment with sequence number %u, but the records before it in this direction end at %u", c.seq, flow_bytes[key]));
+				++zero_tcp; continue;
+			}
 		}
 		// records with payload correspond one-to-one, in order, to the sends the probes saw
 		if (si >= sent.size()) { r.violation("C19", "record-without-send", who + ": no further transmission was seen on the wire"); continue; }
-		Ev const& e = *sent[si].e; bool const udp = sent[si].udp; ++si;
+		Ev const& e = *sent[si].e; bool const udp = sent[si].udp; std::uint32_t const want_seq = sent[si].want_seq; ++si;
+		if (c.proto == 6 && !udp)
+		{
+			auto key = std::make_pair(std::make_pair(c.src, c.sport), std::make_pair(c.dst, c.dport));
+			if (c.seq != want_seq)
+				r.violation("C19", want_seq == 0 ? "tcp-seq-does-not-start-at-zero" : "tcp-seq-not-cumulative"
+					, who + fmt(": sequence number %u, but %u payload bytes were transmitted before in this direction", c.seq, want_seq));
+			flow_bytes[key] = want_seq + std::uint32_t(c.payload.size()); flow_started[key] = true;
+			if (want_seq > 0 && p.late_capture) r.count("tcp_records_of_connections_older_than_the_capture");
+		}
 		if ((c.proto == 17) != udp || std::size_t(e.size) != c.payload.size() || fnv(c.payload.data(), c.payload.size()) != e.hash)
 			r.violation("C19", "payload-mismatch", who + fmt(" does not match transmission #%zu seen on the wire (%s, %d bytes at %" PRId64 " ns)", si - 1, udp ? "UDP" : "TCP", e.size, e.t));
 		std::uint64_t const want = std::uint64_t(epoch) * 1000000 + std::uint64_t(e.t / 1000);
@@ -499,7 +535,12 @@ void run_case(Args const& a, std::uint64_t c)
 		{
 			M().reset();
 			Prog w(a, hcomb(seed, 0x77 + std::uint64_t(k)), path + ".warm");
-			w.build_and_run(true); w.teardown();
+			// --warmthrow N: the earlier simulation is left through an exception thrown by its N-th tracked handler
+			long const wt = a.geti("warmthrow", 0);
+			if (wt > 0) M().throw_at = wt;
+			try { w.build_and_run(true); } catch (HarnessThrow const&) {} 
+			M().throw_at = -1;
+			w.teardown();
 			::unlink((path + ".warm").c_str());
 		}
 		long const pre = a.geti("prealloc", 0);
